@@ -40,9 +40,9 @@ func (r *Rng) Intn(n int) int {
 	}
 	return int(r.U64() % uint64(n))
 }
-func (r *Rng) Bool() bool           { return r.U64()&1 == 1 }
-func (r *Rng) Chance(p int) bool    { return r.Intn(100) < p }
-func (r *Rng) Fork(k uint64) *Rng   { return NewRng(r.U64() ^ (k * 0xD6E8FEB86659FD93)) }
+func (r *Rng) Bool() bool         { return r.U64()&1 == 1 }
+func (r *Rng) Chance(p int) bool  { return r.Intn(100) < p }
+func (r *Rng) Fork(k uint64) *Rng { return NewRng(r.U64() ^ (k * 0xD6E8FEB86659FD93)) }
 func (r *Rng) Pick(ws ...int) int { // weighted choice
 	t := 0
 	for _, w := range ws {
@@ -98,11 +98,13 @@ func (t *Trace) Hist(tag string, cfg ...uint64) {
 	fmt.Fprintf(t.w, "H %s | %s\n", tag, uints(cfg))
 	t.Hists++
 }
+
 // Step writes one operation with the implementation's observed answer.
 func (t *Trace) Step(op []int64, obs []int64) {
 	fmt.Fprintf(t.w, "O %s\nR %s\n", ints(op), ints(obs))
 	t.Steps++
 }
+
 // StepU is Step for lines that contain values above 2^63.
 func (t *Trace) StepU(op []uint64, opNeg map[int]bool, obs []uint64) {
 	var sb strings.Builder
@@ -162,6 +164,7 @@ func (r *Report) Violate(hist int, tag string, step int, what, detail string) {
 		r.Violations = append(r.Violations, Violation{hist, tag, step, what, detail})
 	}
 }
+
 // Distinct counts a history as non-trivial once per distinct fingerprint.
 func (r *Report) Distinct(fp string) {
 	if !r.distinct[fp] {
@@ -241,7 +244,7 @@ func NewLogBaseFrom(segs map[atree.SlabID][]byte, idx map[atree.Address]atree.Sl
 	}
 	return b
 }
-func (b *LogBase) Clone() *LogBase  { return NewLogBaseFrom(b.Segs, b.idx) }
+func (b *LogBase) Clone() *LogBase   { return NewLogBaseFrom(b.Segs, b.idx) }
 func (b *LogBase) Arm(failWrite int) { b.FailWrite = failWrite; b.nWrite = 0 }
 func (b *LogBase) ArmRead(k int)     { b.FailRead = k; b.nRead = 0 }
 func (b *LogBase) ResetLog()         { b.Log = b.Log[:0] }
@@ -292,6 +295,12 @@ func (b *LogBase) GenerateSlabID(a atree.Address) (atree.SlabID, error) {
 	n := b.idx[a].Next()
 	b.idx[a] = n
 	return atree.NewSlabID(a, n), nil
+}
+
+// LastIndex is the last slab index handed out for the address.
+func (b *LogBase) LastIndex(a atree.Address) uint64 {
+	x := b.idx[a]
+	return binary.BigEndian.Uint64(x[:])
 }
 func (b *LogBase) SegmentCounts() int { return len(b.Segs) }
 func (b *LogBase) Size() int {
@@ -376,3 +385,5 @@ func must(err error) {
 }
 
 func asErr(err error, target any) bool { return errors.As(err, target) }
+
+func sortStrings(x []string) { sort.Strings(x) }
